@@ -108,6 +108,11 @@ def programs_for(lit):
             dup_envs += [dict(f=(x, x)), dict(f=(x,)), dict(f=(x, x, x)), dict(f=x)]
         yield "nested-tuple-repeated-member", op, f"def m {{ if f {op} (({src}, {src}), (1, 1), {src}, {src}) {T} else {F} }}", dup_envs
     if isinstance(lit.value, str):
+        # a bare string right of `in` is that string (Python's substring test), not a one-member tuple
+        v = lit.value
+        subs = [v, v[:1], v[1:], v[:-1], "", v + "x", v[len(v) // 2:], "\x00"]
+        for op in ("in", "not in"):
+            yield "bare-string-right-of-in", op, f"def m {{ if f {op} {src} {T} else {F} }}", [dict(f=x) for x in subs]
         # a tuple of (key, value) pairs, three levels deep: nothing in there is anything but data
         pairs_envs = []
         for x in ins:
